@@ -62,6 +62,18 @@ CLAIMED = {
              'fixed (singleton side, permuted shape accepted, weak one-sided guard); open findings for one-sided calls whose missing side has '
              'a size-1 dimension and for matrices with dims >= points.',
         technique='Coq executable model + in-Coq correspondence evaluation + Coq lemmas (partial proof)'),
+    'C13': dict(
+        text='Coq theorems over strings (lists of ASCII) for ANY contents of the parent group: the assigned name is <base>_NNN with NNN = 1 + highest '
+             'number of groups named exactly <base>_<digits> (000 if none), differs from every existing group, creation succeeds and appends only '
+             'the new group; decimal format/parse round trip; (dataset, tool, index) -> name is injective; find_results_groups returns exactly '
+             'the groups named <dataset>-<tool>_<digits> and never a group created for another pair; the source dataset is recovered from the '
+             'name. The model is replayed against histories of create/delete/find/get_source operations (default parent, other group, file root, '
+             'other file) over a vocabulary closed under prefix/substring/digit-suffix relations inside coqc.',
+        design='5/C13',
+        note='Trusted: Coq kernel, str.startswith/isdigit/format/replace and h5py name ordering as mirrored in H5/Naming.v (ASCII names), harness. '
+             'Hypothesis stated in the theorem: no sibling *dataset* carries the computed <base>_NNN name. Recording of tool/source attributes is '
+             'judged by the oracle only. Two genuine defects (prefix parse, substring lookup) were found and fixed.',
+        technique='Coq proof (string/list induction, decimal round trip) + in-Coq replay of operation histories'),
     'C14': dict(
         text='Coq theorems (unbounded in ranks, pending-list length, batch limit, processor names) about rank ranges, batch windows and '
              'socket masters; the integer kernels are regenerated from process.py by a fail-closed ast translator on every run, '
